@@ -8,6 +8,7 @@ import BV.C10.Rbf
 import BV.C10.ComposeUtxo
 import BV.C10.ComposeTemplate
 import BV.C10.Laws2
+import BV.C10.Undo
 import BV.Generated.C10
 namespace BV.C10
 open Spec Lemmas
@@ -364,6 +365,15 @@ theorem chain_view_is_c03_utxoOf (maturity mtp0 : Nat) (bs : List Block)
     (hcb : ∀ b ∈ bs, ∀ T ∈ b.txs, ∀ x ∈ T.ins, x.txid ≠ b.cb.id) :
     Represents (connectAll (State.init maturity mtp0).chain bs).utxo (C03.Spec.utxoOf (bs.map toC03Block)) :=
   connectAll_represents bs _ _ represents_empty hcb
+
+/-- disconnecting the block that was just connected restores the chain view (same unspent outpoints, height,
+median time, block stack), provided none of the block's outputs existed before (BIP30/BIP34): the model's
+undo data is exactly what the block spent -/
+theorem chain_view_disconnect_undoes_connect (c : Chain) (b : Block)
+    (hnew : ∀ x, hasU c.utxo x → ∀ T ∈ b.cb :: b.txs, ¬ OutputOf x T) :
+    ∃ c', (c.connect b).disconnect = some (c', b) ∧ c'.height = c.height ∧ c'.mtp = c.mtp ∧
+      c'.stack = c.stack ∧ c'.maturity = c.maturity ∧ ∀ x, hasU c'.utxo x ↔ hasU c.utxo x :=
+  disconnect_connect c b hnew
 
 /-! ### composition with C12 (block templates built from the pool) -/
 
